@@ -970,6 +970,99 @@ structure Schema where
 value, `none` = not decodable.  Supplied by the harness from the real function. -/
 abbrev Dec := Nat → List Char → Option (List Char)
 
+/-! ### specification of `FuzzyDecode` for the cheap kinds (not an oracle) -/
+
+def lowerAscii (c : Char) : Char := if 'A' ≤ c ∧ c ≤ 'Z' then Char.ofNat (c.toNat + 32) else c
+
+/-- `case reflect.Bool`: the word table, case-insensitively -/
+def decodeBool (v : List Char) : Option (List Char) :=
+  let l := String.ofList (v.map lowerAscii)
+  if l = "true" ∨ l = "t" ∨ l = "1" ∨ l = "y" ∨ l = "yes" ∨ l = "on" then some "true".toList
+  else if l = "false" ∨ l = "f" ∨ l = "0" ∨ l = "n" ∨ l = "no" ∨ l = "off" then some "false".toList
+  else none
+
+def digitVal (c : Char) : Option Nat :=
+  let l := lowerAscii c
+  if '0' ≤ c ∧ c ≤ '9' then some (c.toNat - '0'.toNat)
+  else if 'a' ≤ l ∧ l ≤ 'z' then some (l.toNat - 'a'.toNat + 10)
+  else none
+
+def isBasePrefixLetter (c : Char) : Bool := lowerAscii c = 'b' || lowerAscii c = 'o' || lowerAscii c = 'x'
+
+/-- `strconv.underscoreOK` state machine; `saw` ∈ {'^', '0', '_', '!'} -/
+def underscoreLoop (hex : Bool) : Char → List Char → Bool
+  | saw, [] => saw != '_'
+  | saw, c :: cs =>
+    if ('0' ≤ c ∧ c ≤ '9') ∨ (hex ∧ 'a' ≤ lowerAscii c ∧ lowerAscii c ≤ 'f') then underscoreLoop hex '0' cs
+    else if c = '_' then (if saw != '0' then false else underscoreLoop hex '_' cs)
+    else if saw = '_' then false
+    else underscoreLoop hex '!' cs
+
+def underscoreOK (s : List Char) : Bool :=
+  let s := match s with | '-' :: r => r | '+' :: r => r | _ => s
+  match s with
+  | '0' :: p :: r => if isBasePrefixLetter p then underscoreLoop (lowerAscii p = 'x') '0' r else underscoreLoop false '^' s
+  | _ => underscoreLoop false '^' s
+
+/-- the digit loop of `strconv.ParseUint` with base-0 underscores; `none` on a bad digit -/
+def digitsLoop (base : Nat) : Nat → Bool → List Char → Option (Nat × Bool)
+  | n, us, [] => some (n, us)
+  | n, us, c :: cs =>
+    if c = '_' then digitsLoop base n true cs
+    else
+      match digitVal c with
+      | none => none
+      | some d => if d ≥ base then none else digitsLoop base (n * base + d) us cs
+
+/-- `strconv.ParseUint(s, 0, bits)` -/
+def parseUint0 (s : List Char) (bits : Nat) : Option Nat :=
+  if s = [] then none
+  else
+    let (base, body) : Nat × List Char :=
+      match s with
+      | '0' :: p :: r =>
+        if s.length ≥ 3 ∧ lowerAscii p = 'b' then (2, r)
+        else if s.length ≥ 3 ∧ lowerAscii p = 'o' then (8, r)
+        else if s.length ≥ 3 ∧ lowerAscii p = 'x' then (16, r)
+        else (8, p :: r)
+      | '0' :: r => (8, r)
+      | _ => (10, s)
+    match digitsLoop base 0 false body with
+    | none => none
+    | some (n, us) =>
+      if us ∧ !underscoreOK s then none
+      else if n ≥ 2 ^ bits then none
+      else some n
+
+/-- `strconv.ParseInt(s, 0, bits)` -/
+def parseInt0 (s : List Char) (bits : Nat) : Option Int :=
+  if s = [] then none
+  else
+    let (neg, body) : Bool × List Char :=
+      match s with
+      | '+' :: r => (false, r)
+      | '-' :: r => (true, r)
+      | _ => (false, s)
+    match parseUint0 body bits with
+    | none => none
+    | some un =>
+      let cutoff := 2 ^ (bits - 1)
+      if !neg ∧ un ≥ cutoff then none
+      else if neg ∧ un > cutoff then none
+      else some (if neg then -(un : Int) else (un : Int))
+
+inductive DecSpec where
+  | str | bool | int (bits : Nat) | uint (bits : Nat) | oracle
+  deriving Repr
+
+/-- the specified decoders; `none` (outer) = use the oracle -/
+def decodeSpec : DecSpec → List Char → Option (Option (List Char))
+  | .str, v => some (some v)
+  | .bool, v => some (decodeBool v)
+  | .int bits, v => some ((parseInt0 v bits).map fun i => (toString i).toList)
+  | .uint bits, v => some ((parseUint0 v bits).map fun n => (toString n).toList)
+  | .oracle, _ => none
+
 /-- oracle ids of the two patch-stage validators -/
 def kindAddrPort : Nat := 100
 def kindHttpMethod : Nat := 101
@@ -1109,7 +1202,10 @@ def paramItems (S : Schema) (dec : Dec) : Nat → StructDef → Path → List AI
       match findField sd.fields name with
       | none => .error .unexpectedKey
       | some f =>
-        match sectionParser S dec n f.kind (sub path name) items st with
+        -- 958eeab: a list written in section form replaces the default on its first occurrence
+        -- (`!field.Set && Kind() == Slice`), exactly like the `key: a, b` form; later ones append
+        let st0 := if f.kind = .strList ∧ !set.contains name then st.put (sub path name) (.strs []) else st
+        match sectionParser S dec n f.kind (sub path name) items st0 with
         | .error e => .error e
         | .ok st' => paramItems S dec n sd path rest st' (name :: set)
     | .rule fs out =>
